@@ -12,7 +12,7 @@ From Eupsv Require Import Base.Base Model.Graph Proofs.GraphLib Proofs.GraphWalk
      Proofs.GraphLayers Proofs.GraphTarjan Proofs.GraphPartition Proofs.GraphOrder
      Proofs.GraphTarjanLib Proofs.GraphTarjanFull Proofs.GraphTotal Proofs.GraphBuild.
 From Eupsv Require Import Model.DepWalk Proofs.DepWalkConst Proofs.DepWalkSim Proofs.DepWalkComplete Proofs.DepWalkEdges
-     Proofs.DepWalkPins Proofs.DepWalkMain Proofs.DepWalkCheck Generated.Config.
+     Proofs.DepWalkPins Proofs.DepWalkMain Proofs.DepWalkCheck Proofs.DepWalkInherit Generated.Config.
 From Eupsv Require Import Model.BuildOrder Proofs.BuildOrderLib Proofs.BuildOrder.
 Open Scope string_scope.
 
@@ -887,6 +887,79 @@ Example line_tag_is_inherited :
                vro_default true 7 (nd "top" "1") false false
   = Ok [ (nd "m" "1", false, 1); (nd "lib" "2", false, 2); (nd "n" "1", false, 1); (nd "lib" "1", false, 2) ].
 Proof. split; vm_compute; reflexivity. Qed.
+
+(* ------------------------------------------------------------------ the VRO of a line stays in force below it *)
+
+(* Table.dependencies pushes the VRO of a line (processArgs: its recognised -t tags in front of the VRO in force,
+   or the words of its --vro: any function [lvro]), resolves the line, walks the table of the product found and
+   only then pops it - as Eups.setup keeps the requested VRO for everything it sets up below the line.  For
+   every processArgs function, look-up function, table set, pin list, state and depth: when the walk of a
+   table answers and its first line denotes a declared product that is walked (no -j, not met before), the
+   table of that product is walked under the VRO OF THE LINE, one level deeper, and its entries follow the entry
+   of the line. *)
+Theorem line_vro_stays_in_force_below lvro lk lkp T pins fuel vro tp depth l r st es st' ls' :
+  dwalk lvro lk lkp T pins (S fuel) vro tp depth (l :: r) st = Ok (es, st') ->
+  nreal (dresolve lk lkp pins (lvro vro l) l) = true -> dl_just l = false ->
+  mem_node (dresolve lk lkp pins (lvro vro l) l) (vis st) = false ->
+  dnode_table T (dresolve lk lkp pins (lvro vro l) l) = Some ls' ->
+  exists l1 st2 l2,
+    dwalk lvro lk lkp T pins fuel (lvro vro l) (dresolve lk lkp pins (lvro vro l) l) (S depth) ls'
+          (pd_ensure (dresolve lk lkp pins (lvro vro l) l) (mark (dresolve lk lkp pins (lvro vro l) l) st)) = Ok (l1, st2) /\
+    es = (dresolve lk lkp pins (lvro vro l) l, dl_optional l, depth) :: l1 ++ l2.
+Proof. exact (dwalk_line_below lvro lk lkp T pins fuel vro tp depth l r st es st' ls'). Qed.
+Print Assumptions line_vro_stays_in_force_below.
+
+(* two levels: top's first line l denotes t, the table of t starts with l2.  The listing of top starts with t
+   and then the product l2 denotes under the VRO of l with that of l2 in front - not under the VRO of the
+   command: with line_vro, the tags of l2, then the tags of l, then the VRO of the command. *)
+Theorem inherited_tag_resolves_below lvro lk lkp T fuel vro top l r l2 r2 es st :
+  dnode_table T top = Some (l :: r) ->
+  nreal (tgt_of l (lk (lvro vro l) l)) = true -> dl_just l = false ->
+  dnode_table T (tgt_of l (lk (lvro vro l) l)) = Some (l2 :: r2) ->
+  dwalk_top lvro lk lkp T [] (S (S fuel)) vro top = Ok (es, st) ->
+  exists rest, es = (tgt_of l (lk (lvro vro l) l), dl_optional l, 1)
+                    :: (tgt_of l2 (lk (lvro (lvro vro l) l2) l2), dl_optional l2, 2) :: rest.
+Proof. exact (inherit_two_levels lvro lk lkp T fuel vro top l r l2 r2 es st). Qed.
+Print Assumptions inherited_tag_resolves_below.
+
+(* three levels: the VROs of the two lines on the way down are both in force for the third *)
+Theorem inherited_tag_resolves_three_levels_below lvro lk lkp T fuel vro top l r l2 r2 l3 r3 es st :
+  let lv1 := lvro vro l in let t1 := tgt_of l (lk lv1 l) in
+  let lv2 := lvro lv1 l2 in let t2 := tgt_of l2 (lk lv2 l2) in
+  dnode_table T top = Some (l :: r) ->
+  nreal t1 = true -> dl_just l = false -> dnode_table T t1 = Some (l2 :: r2) ->
+  nreal t2 = true -> dl_just l2 = false -> node_eqb t2 t1 = false -> dnode_table T t2 = Some (l3 :: r3) ->
+  dwalk_top lvro lk lkp T [] (S (S (S fuel))) vro top = Ok (es, st) ->
+  exists rest, es = (t1, dl_optional l, 1) :: (t2, dl_optional l2, 2)
+                    :: (tgt_of l3 (lk (lvro lv2 l3) l3), dl_optional l3, 3) :: rest.
+Proof. exact (inherit_three_levels lvro lk lkp T fuel vro top l r l2 r2 l3 r3 es st). Qed.
+Print Assumptions inherited_tag_resolves_three_levels_below.
+
+(* the hypotheses are inhabited, and the versions are distinguished by the tag: a needs b through a line carrying
+   -t beta, b needs c, c needs d - bare lines; current names d 1, beta names d 2; e needs c without a tag.  The
+   listing of a holds d 2 three levels below the line, that of e (and of b itself) d 1 *)
+Definition db_inherit : dbv :=
+  [ mkStack (lit "s")
+      [ decl "a" "1" "Linux64"; decl "b" "1" "Linux64"; decl "c" "1" "Linux64"; decl "d" "1" "Linux64";
+        decl "d" "2" "Linux64"; decl "e" "1" "Linux64" ]
+      [ cur "a" "Linux64" "1"; cur "b" "Linux64" "1"; cur "c" "Linux64" "1"; cur "d" "Linux64" "1"; cur "e" "Linux64" "1";
+        (lit "d", lit "Linux64", lit "beta", lit "2") ] ].
+Definition T_inherit : dtables :=
+  [ dt "a" "1" [mkDline (lit "b") None None [lit "beta"] false false false];
+    dt "b" "1" [dl "c" None false]; dt "c" "1" [dl "d" None false]; dt "d" "1" []; dt "d" "2" [];
+    dt "e" "1" [dl "c" None false] ].
+
+Example inherited_tag_three_levels_down :
+  dep_products vcmp_simple vmatch_simple cfg_beta two_flavors two_flavors (mkDworld db_inherit T_inherit T_inherit)
+               vro_default true 7 (nd "a" "1") false false
+  = Ok [ (nd "b" "1", false, 1); (nd "c" "1", false, 2); (nd "d" "2", false, 3) ] /\
+  dep_products vcmp_simple vmatch_simple cfg_beta two_flavors two_flavors (mkDworld db_inherit T_inherit T_inherit)
+               vro_default true 7 (nd "e" "1") false false
+  = Ok [ (nd "c" "1", false, 1); (nd "d" "1", false, 2) ] /\
+  dep_products vcmp_simple vmatch_simple cfg_beta two_flavors two_flavors (mkDworld db_inherit T_inherit T_inherit)
+               vro_default true 7 (nd "b" "1") false false
+  = Ok [ (nd "c" "1", false, 1); (nd "d" "1", false, 2) ].
+Proof. split; [|split]; vm_compute; reflexivity. Qed.
 
 (* from the TEXT of a table file to the lines the walk reads (Model/DepWalkText.v: the parser of C11, then
    Action.processArgs): version and bracketed expression, a relational version, -j, -t, the branch of the exact
